@@ -346,6 +346,8 @@ def Atom.pyEq (a b : Atom) : Tri :=
       | .module i, .module j => if i = j then .yes else .no
       | .obj i, .obj j => if i = j then .yes else .no
       | .dict i, .dict j => if i = j then .yes else .no
+      -- protocol objects compare by identity; the same term denotes the same object
+      | .idx _, .idx _ | .flt _, .flt _ | .cpx _, .cpx _ | .idxflt _ _, .idxflt _ _ => if a = b then .yes else .no
       | _, _ => .no
 
 /-- A numpy scalar against a sequence broadcasts: exactly one (scalar) element
